@@ -10,14 +10,16 @@ from terms import show
 COMPLEMENTABLE = ["dna::Dna", "iupac::Iupac", "masked::dna::Dna", "masked::iupac::Iupac", "degenerate::dna::Dna"]
 
 
-def default_then(chk, cfg, trait, method, first, rule):
-    """trait default `to_x(&self)`: to_owned(self) then x on the copy"""
-    bs = [b for b in cfg.bio.bodies if b["path"] == "%s::%s" % (trait, method) and (b.get("impl") or {}).get("trait_default")]
-    what = "%s::%s" % (trait, method)
-    if len(bs) != 1:
-        chk.cannot(rule, what, "trait default not found uniquely")
-        return
-    b = bs[0]
+def _owned_of(cfg, ty):
+    """the type `<ty as ToOwned>::Owned`: the return type of a crate-local ToOwned impl, else (Clone blanket impl) ty itself"""
+    for x in cfg.bio.bodies:
+        if x["path"] == "<%s as std::borrow::ToOwned>::to_owned" % ty:
+            return x.get("ret_ty")
+    return ty
+
+
+def _to_owned_then(cfg, b, self_ty, owned_ty, first):
+    """`let mut o = self.to_owned(); o.first(); o` with Self spelled self_ty and its Owned type spelled owned_ty"""
     paths, _ = an.analyse(cfg, b, policy=an.SeqPolicy())   # a private helper shared by the to_* defaults is inlined
     r = [p for p in paths if p.end == "return"]
     ok = False
@@ -28,13 +30,33 @@ def default_then(chk, cfg, trait, method, first, rule):
         nb = N(base)
         evs = [x for x in r[0].calls if x[3].idx in ids]
         got = "%s then %s" % (show(nb), [x[0] for x in evs])
-        ok = an.is_call(nb, "<Self as std::borrow::ToOwned>::to_owned", (P(1),)) and len(evs) == 1 and \
-            re.match(r"^<<Self as std::borrow::ToOwned>::Owned as %s>::%s$" % (first[0], first[1]), evs[0][0]) is not None and \
-            len([x for x in r[0].calls if x[0] != "<Self as std::borrow::ToOwned>::to_owned"]) == 1
+        to_owned = "<%s as std::borrow::ToOwned>::to_owned" % self_ty
+        ok = an.is_call(nb, to_owned, (P(1),)) and len(evs) == 1 and \
+            evs[0][0] == "<%s as %s>::%s" % (owned_ty, first[0], first[1]) and \
+            len([x for x in r[0].calls if x[0] != to_owned]) == 1
+    return ok, got
+
+
+def default_then(chk, cfg, trait, method, first, rule):
+    """trait default `to_x(&self)`: to_owned(self) then x on the copy"""
+    bs = [b for b in cfg.bio.bodies if b["path"] == "%s::%s" % (trait, method) and (b.get("impl") or {}).get("trait_default")]
+    what = "%s::%s" % (trait, method)
+    if len(bs) != 1:
+        chk.cannot(rule, what, "trait default not found uniquely")
+        return
+    b = bs[0]
+    ok, got = _to_owned_then(cfg, b, "Self", "<Self as std::borrow::ToOwned>::Owned", first)
     chk.ob(rule, what, ok, "must be `let mut o = self.to_owned(); o.%s(); o` (receiver untouched); got %s" % (first[1], got), b["span"], sample=got)
-    # no impl overrides the default
-    over = [x["path"] for x in cfg.bio.bodies if x["path"].endswith("::" + method) and (x.get("impl") or {}).get("trait") == trait]
-    chk.ob(rule + "/override", what, not over, "overridden by %s" % over, b["span"])
+    # an impl that overrides the default must be the same body, spelled with its own types
+    bad = []
+    for x in cfg.bio.bodies:
+        imp = x.get("impl") or {}
+        if x["path"].endswith("::" + method) and imp.get("trait") == trait:
+            st = an._strip_lt(imp.get("self_ty") or "")
+            ok2, got2 = _to_owned_then(cfg, x, st, _owned_of(cfg, st), first)
+            if not ok2:
+                bad.append("%s: %s" % (x["path"], got2))
+    chk.ob(rule + "/override", what, not bad, "overridden by something other than the default body: %s" % bad, b["span"])
 
 
 def run(ctx, chk):
@@ -83,8 +105,19 @@ def run(ctx, chk):
             ok = len(r) == 1 and not r[0].guards and sorted(seq) == ["<Self as ComplementMut>::comp", "<Self as ReverseMut>::rev"] and \
                 all(x[1] == (P(1),) for x in r[0].calls)
             chk.ob("S-revcomp", "ReverseComplementMut::revcomp", ok, "default revcomp must be comp and rev applied to self, once each; got %s" % seq, bs[0]["span"], sample=seq)
-            over = [x["path"] for x in bio.bodies if x["path"].endswith("::revcomp") and (x.get("impl") or {}).get("trait") == "ReverseComplementMut"]
-            chk.ob("S-revcomp/override", "ReverseComplementMut::revcomp", not over, "overridden by %s" % over, bs[0]["span"])
+            over = []
+            for x in bio.bodies:
+                imp = x.get("impl") or {}
+                if x["path"].endswith("::revcomp") and imp.get("trait") == "ReverseComplementMut":
+                    # an override must be the default body spelled with its own type
+                    st = an._strip_lt(imp.get("self_ty") or "")
+                    ps, _ = an.analyse(cfg, x, policy=an.NoInline())
+                    rr = [p for p in ps if p.end == "return"]
+                    sq = [c[0] for c in rr[0].calls] if len(rr) == 1 else []
+                    if not (len(ps) == 1 and len(rr) == 1 and not rr[0].guards and sorted(sq) == ["<%s as ComplementMut>::comp" % st, "<%s as ReverseMut>::rev" % st]
+                            and all(c[1] == (P(1),) for c in rr[0].calls)):
+                        over.append("%s: %s" % (x["path"], sq))
+            chk.ob("S-revcomp/override", "ReverseComplementMut::revcomp", not over, "overridden by something other than the default body: %s" % over, bs[0]["span"])
         else:
             chk.cannot("S-revcomp", "ReverseComplementMut::revcomp", "trait default not found")
         default_then(chk, cfg, "Reverse", "to_rev", ("ReverseMut", "rev"), "S-to")
